@@ -4,14 +4,24 @@
     classified RNotLocal by the address oracle; the relay list lookup
     (lookupipbl_name(relayclients / relayclients6)) is the oracle [o_relay]:
     > 0 the client is listed, 0 not listed, < 0 unreadable or malformed. *)
-From Qv Require Import Common.Bytes Gen.GenSession Model.NetRead Model.Session Spec.SessionSpec Proofs.SessionProofs.
+From Qv Require Import Common.Bytes Gen.GenSession Model.NetRead Model.Session Spec.SessionSpec Proofs.AuthSync Proofs.SessionProofs.
 
-(** a 2xx for a non-local recipient implies that the relay list matched; in particular an unreadable or
-    malformed list (o_relay < 0) and "not listed" (0) never allow relaying (fail closed) *)
+(** a 2xx for a non-local recipient implies that the relay list matched or that an AUTH succeeded earlier on the same
+    connection (a note [NAuth name] with a non-empty name stands before it in the trace; the note is emitted exactly with
+    the reply 235).  In particular an unreadable or malformed list (o_relay < 0) and "not listed" (0) never allow
+    relaying on their own (fail closed), and neither RSET, HELO/EHLO, a failed AUTH nor a new transaction make a client
+    authenticated. *)
 Theorem C01_remote_rcpt_needs_relay : forall o chunks pre addr post,
-  run_session o chunks = pre ++ Note (NRcpt addr RNotLocal) :: post -> (0 < o_relay o)%Z.
+  run_session o chunks = pre ++ Note (NRcpt addr RNotLocal) :: post -> (0 < o_relay o)%Z \/ has_auth pre = true.
 Proof. exact remote_rcpt_needs_relay. Qed.
 Print Assumptions C01_remote_rcpt_needs_relay.
+
+(** an AUTH note appears only where AUTH is permitted (a backend is configured) and the mechanism handler
+    (base64 decoding + checkpassword, property C09) reported success for that very name *)
+Theorem C01_auth_only_from_backend : forall o chunks n,
+  In (Note (NAuth n)) (run_session o chunks) -> o_authperm o = true /\ exists arg, o_auth o arg = Auth_ok n.
+Proof. exact auth_note_from_backend. Qed.
+Print Assumptions C01_auth_only_from_backend.
 
 (** a recipient that was refused never appears in an envelope: the envelope is exactly the accepted ones *)
 Theorem C01_envelope_is_accepted_only : forall o chunks pre env msg post,
@@ -24,7 +34,19 @@ Example C01_nonvacuous :
   existsb (fun e => match e with Note (NRcpt _ RNotLocal) => true | _ => false end)
     (run_session {| o_helo := fun _ => true; o_addr := fun _ _ => AP_ok [120]%N None RNotLocal;
                     o_ext := fun _ => Ext_ok 0 0 None; o_relay := 1%Z; o_mx := fun _ => 0; o_qq := fun _ => QQ_ok;
-                    o_databytes := 0%N; o_liphost := []; o_check2822 := false; o_trace := fun _ _ _ _ _ => [] |}
+                    o_databytes := 0%N; o_liphost := []; o_check2822 := false; o_authperm := false; o_auth := fun _ => Auth_multi; o_trace := fun _ _ _ _ _ _ => [] |}
         [ [72;69;76;79;32;120;13;10]; [77;65;73;76;32;70;82;79;77;58;60;97;62;13;10];
           [82;67;80;84;32;84;79;58;60;98;62;13;10] ]%N) = true.
 Proof. vm_compute. reflexivity. Qed.
+
+(** relaying through AUTH: not listed (o_relay = 0), AUTH succeeds, the remote recipient is accepted; without the AUTH it is not *)
+Example C01_nonvacuous_auth :
+  let o := {| o_helo := fun _ => true; o_addr := fun _ _ => AP_ok [120]%N None RNotLocal;
+              o_ext := fun _ => Ext_ok 0 0 None; o_relay := 0%Z; o_mx := fun _ => 0; o_qq := fun _ => QQ_ok;
+              o_databytes := 0%N; o_liphost := []; o_check2822 := false; o_authperm := true;
+              o_auth := fun _ => Auth_ok [117]%N; o_trace := fun _ _ _ _ _ _ => [] |} in
+  let ehlo := [69;72;76;79;32;120;13;10]%N in let auth := [65;85;84;72;32;80;76;65;73;78;32;120;13;10]%N in
+  let mail := [77;65;73;76;32;70;82;79;77;58;60;97;62;13;10]%N in let rcpt := [82;67;80;84;32;84;79;58;60;98;62;13;10]%N in
+  existsb (fun e => match e with Note (NRcpt _ RNotLocal) => true | _ => false end) (run_session o [ehlo; auth; mail; rcpt]) = true
+  /\ existsb (fun e => match e with Note (NRcpt _ RNotLocal) => true | _ => false end) (run_session o [ehlo; mail; rcpt]) = false.
+Proof. vm_compute. split; reflexivity. Qed.
